@@ -782,4 +782,6 @@ func main() {
 	writeIfChanged(filepath.Join(out, "Tables.v"), genTables(r))
 	genLegacy(repo, out)
 	genAccess(repo, out)
+	genCacheKey(repo, out)
+	genDiscipline(repo, out)
 }
